@@ -551,6 +551,11 @@ CANDIDATES = {
     "F27": ["2024/01/01 x ; :a:b:\u00a0\n", "2024/01/01 x\n  A  1 USD\n  ; :a:b:\u3000\n", "2024/01/01 x\n  A  1 USD ;:t:\x0c\n"],
 }
 
+# documented-grammar texts the parser rejects (found by the acceptance proof, Lemmas/DocAcceptFindings.lean)
+CANDIDATES["F34"] = ["2024/01/01\n *\n", "2024/01/01\n !\n", "2024/01/01\n A;  1 (\n)\n"]
+CANDIDATES["F35"] = ["apply tag \x0c\n"]
+CANDIDATES["F36"] = ["2024/01/01 (\naccount X)\n note c  d\n"]
+
 # round trip changes the tree (F28): an account made only of Unicode white space is trimmed to the empty string
 CANDIDATES["F28"] = ["2024/01/01 x\n \u3000\n    B  1 USD\n", "2024/01/01 x\n \u00a0  1 USD\n"]
 
